@@ -70,3 +70,17 @@ Proof.
 Qed.
 
 Print Assumptions C02_all_core_histories.
+
+(* dropping a Drain at ANY point of its consumption, with ANY set of panicking destructors: in every
+   outcome other than the abort of a double panic the vector is exactly the untouched prefix followed
+   by the untouched suffix, and exactly the elements still in the window have been destroyed, once *)
+Theorem C02_dropping_a_drain_restores_prefix_and_suffix :
+  forall cfg, cfg_ok cfg -> needs_drop cfg = true ->
+  forall ncap tmp s d b bl off i j r,
+  drain_inv cfg s d b bl off i j r -> d_fill d = None ->
+  NoDup (window bl i j) -> (forall e, In e (window bl i j) -> ledger s e = Live) ->
+  post (drain_drop cfg ncap tmp d s)
+    (fun _ s' => drain_gone cfg s s' d b bl i j r) (fun s' => drain_gone cfg s s' d b bl i j r).
+Proof. intros cfg Hc Hd ncap tmp. exact (drain_drop_machine cfg Hc Hd ncap tmp). Qed.
+
+Print Assumptions C02_dropping_a_drain_restores_prefix_and_suffix.
